@@ -27,7 +27,8 @@ RULE = ("texts for Acl (extended, standard), AceGroup and AddrGroup on both plat
         "outcome) with at least one non-valid line"
         " Round 4: address groups also through addrgroups(config) and AddrGroup(name=, items=[...])."
         " Round 5: comment lines inside sections; group_by on AceGroup."
-        " Rounds 6-7: per cent signs in invalid lines; a second group header inside a group body.")
+        " Rounds 6-7: per cent signs in invalid lines; a second group header inside a group body."
+        " Round 8: counter-like remarks; refused and successful range_ports calls between constructions.")
 ASSUMPTIONS = ["'reported' = some captured record whose formatted message contains the whitespace-normalised line text; the "
                "wording around it is free", "an invalid line the library accepts leniently counts as represented when the "
                "next item carries its unique token"]
@@ -313,8 +314,11 @@ def run(ctx) -> None:
     while done < n_max and not ctx.expired():
         if done % 40 == 7:
             # other library calls in between (one that is refused, one that succeeds): reporting afterwards works as before
-            for kw in ({"srcports": "21-22", "line": "permit tcp any range 1 5 any"}, {"dstports": "80,443", "line": "permit tcp any any"},
-                       {"dstports": "1-3", "line": "permit ip any any"}):
+            order = [{"dstports": "80,443", "line": "permit tcp any any"}, {"dstports": "1-3", "line": "permit ip any any"},
+                     {"srcports": "21-22", "line": "permit tcp any range 1 5 any"}]
+            if done % 80 == 7:
+                order.reverse()  # (sometimes the refused call comes last, sometimes a successful one)
+            for kw in order:
                 try:
                     cisco_acl.range_ports(**kw)
                 except (ValueError, TypeError):
